@@ -78,6 +78,24 @@ NOT_APPLICABLE = {
     "C18": "Agreement with SciPy within tolerance and NaN-freedom in tails are floating-point facts.",
 }
 
+# clauses added in seeding round 4 (appended to the level text above)
+ROUND4 = {
+    "C01": "Round 4: copies derived from a template trial are deep; RDB keyed inserts have an update arm (writes overwrite by key); a trial set back to WAITING is not left below the in-memory scan cursor; the in-memory best-trial cache sees every completion.",
+    "C02": "Round 4: the callbacks iterable is materialised once before the per-trial loop.",
+    "C03": "Round 4: no explicit commit inside RDB storage code; the stored state is tested on the for-update row inside the writing transaction; a trial snapshot fetched by a cache is merged in the critical section it was fetched in.",
+    "C04": "Round 4: RDB claim test and write are one transaction on the locked row; a claim lost to an already finished trial moves on; the enqueued value reaches the caller without re-assignment.",
+    "C05": "Round 4: a survivor that loses the race for a dead holder's lock keeps waiting; no region-opening storage method is called inside a writing session region; no release after a failed acquire.",
+    "C06": "Round 4: every JournalStorage answer is computed after the sync of the same call from the replay result only; the storage object keeps no other changing state.",
+    "C07": "Round 4: get_lock_file never releases after a failed acquire.",
+    "C08": "Round 4: the incremental fetch and the updates it leads to run in one held lock section.",
+    "C09": "Round 4: no container-type test on values read back from attributes; constraints stored as an immutable snapshot; the gRPC decoder's use of unordered protobuf maps for params / distributions is reported (known finding).",
+    "C10": "Round 4: rounding onto a step grid is anchored at low; TPE's truncated-normal samples are clipped into the domain.",
+    "C12": "Round 4: a best-valued trial without recorded constraints must be examined against the rest of the study before it is returned (known finding on today's tree).",
+    "C16": "Round 4: a protective field whose only guard is neither an order comparison nor the interval helper is a violation.",
+    "C19": "Round 4: heartbeat age is the difference of two readings of the database clock; the FAIL compare-and-set is tested on the locked row in the writing transaction.",
+    "C20": "Round 4: every public Study property returns a deep copy where a backend may share; deepcopy with a pre-seeded memo is not a deep copy; template copies are deep.",
+}
+
 PENDING_REASON = "static check designed (DESIGN.md §3) but not built yet in this snapshot; not claimed until it runs clean"
 
 
@@ -87,6 +105,8 @@ def main():
     for pid in props:
         if pid in CLAIMED and os.path.exists(os.path.join(VERIF, "rules", pid.lower() + ".py")):
             tech, text, note, ref = CLAIMED[pid]
+            if pid in ROUND4:
+                text = text + " " + ROUND4[pid]
             checks.append({
                 "property_id": pid,
                 "quick_cmd": f"./check {pid} --tier quick",
